@@ -219,6 +219,20 @@ func c17R3(c *Ctx) {
 		c.lost("connector call in connectToTunnel$1$1")
 	}
 	isConn := isValue(connV)
+	// the connector may fail (nil): its result is used only on the non-nil edge of a test
+	nUse := 0
+	eachInstr(f, func(in ssa.Instruction) {
+		ci, ok := in.(ssa.CallInstruction)
+		if !ok || !ci.Common().IsInvoke() || !isConn(ci.Common().Value) {
+			return
+		}
+		nUse++
+		_, nonNil := factNil(factsAt(in.Block()), connV)
+		c.check(nonNil, "connect/connector-result-checked", c.ipos(in), "the connector's result is used only after it was found non-nil", "the connector's result is used without a nil test: a tunnel that cannot be established crashes the client instead of falling back to the in-band path")
+	})
+	if nUse == 0 {
+		c.undecided("connect/connector-result-checked", "no use of the connector's result found")
+	}
 	// non-nil sends on connChan are fully guarded
 	nGood := 0
 	eachInstr(f, func(in ssa.Instruction) {
